@@ -157,14 +157,15 @@ func Generate(prop string, r *sim.Rand, tier string) *sim.Plan {
 			if !q.Reader && q.ApiReader == 0 && q.Compete == 0 && r.Chance(0.4) {
 				q.Burst = r.Range(2, 4)
 			}
+			q.Synced = r.Chance(0.3)
 		}
 	case "C03":
 		if r.Chance(0.35) {
-			cfg.Replicas = append(cfg.Replicas, Policy{ProofType: []string{"serial", "parallel"}[r.Intn(2)], Burst: r.Range(2, 4)})
+			cfg.Replicas = append(cfg.Replicas, Policy{ProofType: []string{"serial", "parallel"}[r.Intn(2)], Burst: r.Range(2, 4), Synced: r.Chance(0.3)})
 		}
 	}
 	switch prop {
-	case "C07", "C02", "C03", "C17", "C09", "C12":
+	case "C07", "C02", "C03", "C17", "C09", "C12", "C10":
 		cfg.Twin = true
 	}
 	if prop == "C03" || ((prop == "C01" || prop == "C07") && r.Chance(0.3)) || (prop == "C08" && r.Chance(0.5)) {
